@@ -66,12 +66,30 @@ func runC10(c *Ctx) {
 			if !ok || len(as.Rhs) != 1 || len(as.Lhs) < 1 {
 				return true
 			}
-			ta, ok := ast.Unparen(as.Rhs[0]).(*ast.TypeAssertExpr)
-			if !ok || ta.Type == nil {
+			// the typed view of a handle parameter: a *listElement variable defined from a type
+			// assertion on the parameter or from a helper that receives the parameter
+			var src ast.Expr
+			switch x := ast.Unparen(as.Rhs[0]).(type) {
+			case *ast.TypeAssertExpr:
+				if x.Type != nil {
+					src = x.X
+				}
+			case *ast.CallExpr:
+				if len(x.Args) == 1 {
+					src = x.Args[0]
+				}
+			}
+			if src == nil {
 				return true
 			}
-			if po := objOfIdent(info, ta.X); po != nil {
-				if tv := objOfIdent(info, as.Lhs[0]); tv != nil && shortTypeName(typeName(tv.Type())) == "listElement" {
+			if po := objOfIdent(info, src); po != nil {
+				isHandle := false
+				for _, hp := range handleParams {
+					if hp == po {
+						isHandle = true
+					}
+				}
+				if tv := objOfIdent(info, as.Lhs[0]); isHandle && tv != nil && shortTypeName(typeName(tv.Type())) == "listElement" {
 					typedOf[po] = tv
 					paramOfTyped[tv] = po
 				}
@@ -412,7 +430,7 @@ func (nf *spliceNF) String() string {
 	return fmt.Sprintf("stores[%s] bookkeeping%v guards%v%s", strings.Join(parts, " | "), nf.book, nf.guards, strings.Join(nf.undec, ""))
 }
 
-func spliceNormalForm(body *ast.BlockStmt, facts [][2]string) *spliceNF {
+func spliceNormalForm(body *ast.BlockStmt, facts [][2]string, helperOf ...func(*ast.CallExpr) *ast.FuncDecl) *spliceNF {
 	nf := &spliceNF{logs: map[string][][2]string{}}
 	env := map[string]string{}
 	distinct := func(a, b string) bool {
@@ -481,71 +499,107 @@ func spliceNormalForm(body *ast.BlockStmt, facts [][2]string) *spliceNF {
 		}
 		nf.book = append(nf.book, term(se.X)+"."+se.Sel.Name+" = "+term(rhs))
 	}
-	for _, st := range body.List {
-		switch x := st.(type) {
-		case *ast.AssignStmt:
-			if len(x.Lhs) == len(x.Rhs) {
-				vals := make([]string, len(x.Rhs))
-				for i := range x.Rhs {
-					vals[i] = term(x.Rhs[i])
+	var run func(list []ast.Stmt, depth int)
+	run = func(list []ast.Stmt, depth int) {
+		for _, st := range list {
+			switch x := st.(type) {
+			case *ast.AssignStmt:
+				if len(x.Lhs) == len(x.Rhs) {
+					vals := make([]string, len(x.Rhs))
+					for i := range x.Rhs {
+						vals[i] = term(x.Rhs[i])
+					}
+					for i := range x.Lhs {
+						if id, isId := ast.Unparen(x.Lhs[i]).(*ast.Ident); isId {
+							env[id.Name] = vals[i]
+						} else {
+							store(x.Lhs[i], x.Rhs[i])
+						}
+					}
+				} else {
+					nf.undec = append(nf.undec, " ?assign")
 				}
-				for i := range x.Lhs {
-					if id, isId := ast.Unparen(x.Lhs[i]).(*ast.Ident); isId {
-						env[id.Name] = vals[i]
-					} else {
-						store(x.Lhs[i], x.Rhs[i])
+			case *ast.DeclStmt:
+				ok := false
+				if gd, isGen := x.Decl.(*ast.GenDecl); isGen && gd.Tok == token.VAR {
+					ok = true
+					for _, sp := range gd.Specs {
+						vs := sp.(*ast.ValueSpec)
+						if len(vs.Values) != len(vs.Names) {
+							ok = false
+							break
+						}
+						for i, nm := range vs.Names {
+							env[nm.Name] = term(vs.Values[i])
+						}
 					}
 				}
-			} else {
-				nf.undec = append(nf.undec, " ?assign")
-			}
-		case *ast.DeclStmt:
-			ok := false
-			if gd, isGen := x.Decl.(*ast.GenDecl); isGen && gd.Tok == token.VAR {
-				ok = true
-				for _, sp := range gd.Specs {
-					vs := sp.(*ast.ValueSpec)
-					if len(vs.Values) != len(vs.Names) {
-						ok = false
-						break
+				if !ok {
+					nf.undec = append(nf.undec, " ?decl")
+				}
+			case *ast.ExprStmt:
+				if c, ok := x.X.(*ast.CallExpr); ok {
+					if se, ok := ast.Unparen(c.Fun).(*ast.SelectorExpr); ok && se.Sel.Name == "Store" && len(c.Args) == 1 {
+						store(se.X, c.Args[0])
+						continue
 					}
-					for i, nm := range vs.Names {
-						env[nm.Name] = term(vs.Values[i])
+					// an unexported helper of the same type (a piece of the splice that was split
+					// off): evaluate its body in place with the parameters bound to the argument terms
+					if len(helperOf) > 0 && helperOf[0] != nil && depth < 3 {
+						if hd := helperOf[0](c); hd != nil && hd.Body != nil {
+							saved := env
+							env = map[string]string{}
+							for k, v := range saved {
+								env[k] = v
+							}
+							bind := map[string]string{}
+							if hd.Recv != nil && len(hd.Recv.List) == 1 && len(hd.Recv.List[0].Names) == 1 {
+								if se, ok := ast.Unparen(c.Fun).(*ast.SelectorExpr); ok {
+									bind[hd.Recv.List[0].Names[0].Name] = term(se.X)
+								}
+							}
+							i := 0
+							for _, fl := range hd.Type.Params.List {
+								for _, nm := range fl.Names {
+									if i < len(c.Args) {
+										bind[nm.Name] = term(c.Args[i])
+									}
+									i++
+								}
+							}
+							for k, v := range bind {
+								env[k] = v
+							}
+							run(hd.Body.List, depth+1)
+							env = saved
+							continue
+						}
 					}
 				}
-			}
-			if !ok {
-				nf.undec = append(nf.undec, " ?decl")
-			}
-		case *ast.ExprStmt:
-			if c, ok := x.X.(*ast.CallExpr); ok {
-				if se, ok := ast.Unparen(c.Fun).(*ast.SelectorExpr); ok && se.Sel.Name == "Store" && len(c.Args) == 1 {
-					store(se.X, c.Args[0])
-					continue
-				}
-			}
-			nf.undec = append(nf.undec, " ?stmt "+exprKey(x.X))
-		case *ast.IncDecStmt:
-			nf.book = append(nf.book, term(x.X)+x.Tok.String())
-		case *ast.IfStmt:
-			// guard: if a == b { return }  adds the fact a != b for the rest
-			if be, ok := ast.Unparen(x.Cond).(*ast.BinaryExpr); ok && be.Op == token.EQL && len(x.Body.List) == 1 && x.Else == nil && x.Init == nil {
-				if _, isRet := x.Body.List[0].(*ast.ReturnStmt); isRet {
-					a, b := term(be.X), term(be.Y)
-					if b < a {
-						a, b = b, a
+				nf.undec = append(nf.undec, " ?stmt "+exprKey(x.X))
+			case *ast.IncDecStmt:
+				nf.book = append(nf.book, term(x.X)+x.Tok.String())
+			case *ast.IfStmt:
+				// guard: if a == b { return }  adds the fact a != b for the rest
+				if be, ok := ast.Unparen(x.Cond).(*ast.BinaryExpr); ok && be.Op == token.EQL && len(x.Body.List) == 1 && x.Else == nil && x.Init == nil {
+					if _, isRet := x.Body.List[0].(*ast.ReturnStmt); isRet {
+						a, b := term(be.X), term(be.Y)
+						if b < a {
+							a, b = b, a
+						}
+						nf.guards = append(nf.guards, a+"=="+b+" -> return")
+						facts = append(facts, [2]string{a, b})
+						continue
 					}
-					nf.guards = append(nf.guards, a+"=="+b+" -> return")
-					facts = append(facts, [2]string{a, b})
-					continue
 				}
+				nf.undec = append(nf.undec, " ?if "+exprKey(x.Cond))
+			case *ast.ReturnStmt:
+			default:
+				nf.undec = append(nf.undec, fmt.Sprintf(" ?%T", st))
 			}
-			nf.undec = append(nf.undec, " ?if "+exprKey(x.Cond))
-		case *ast.ReturnStmt:
-		default:
-			nf.undec = append(nf.undec, fmt.Sprintf(" ?%T", st))
 		}
 	}
+	run(body.List, 0)
 	sort.Strings(nf.book)
 	sort.Strings(nf.guards)
 	return nf
@@ -585,7 +639,18 @@ func checkSpliceShape(r *Reporter, p *Prog) {
 			r.Unresolved("splice/agrees-with-container-list", key, "function or reference not found")
 			continue
 		}
-		got, want := spliceNormalForm(fd.Body, spliceFacts[name]), spliceNormalForm(rb, spliceFacts[name])
+		helperOf := func(c *ast.CallExpr) *ast.FuncDecl {
+			fn := staticCallee(p.Pkg("ds").TypesInfo, c)
+			if fn == nil {
+				return nil
+			}
+			hd := p.decls().byFunc[fn.Origin()]
+			if hd == nil || hd.Name.IsExported() || hd == fd {
+				return nil
+			}
+			return hd
+		}
+		got, want := spliceNormalForm(fd.Body, spliceFacts[name], helperOf), spliceNormalForm(rb, spliceFacts[name])
 		switch {
 		case len(got.undec) > 0:
 			r.Fail("splice/agrees-with-container-list", key, p.posStr(fd.Pos()), "the splice body contains a construct the normal form does not cover (undecided counts as failed): "+got.String())
